@@ -1,8 +1,31 @@
 /-
-Source tie (DESIGN §14) for C08, first part (`==`).
+Source tie (DESIGN §14) for C08: the Lean functions that `harness/pytranslate.py` (plug-in harness/pytr_c08.py) regenerates
+from the *text* of `_equals_impl`, `Tag.__eq__`, `TagList.__eq__`, `HTMLDependency.__eq__` (a `mutual` group, recursion
+through `==` on field values bounded by fuel) and of the views `Tag.__repr__`, `Tag._repr_html_`, `TagList.__repr__`,
+`TagList._repr_html_` compute what the model computes (`Node.eqv` / `Nodes.eqvKids`, Model/Equality.lean; `reprView` /
+`reprHtmlView`, Model/ReadOps.lean).
+
+`==` on field values is the stated semantics of Py/PrimC08.lean (`pyEqWith`), which calls back into the translated
+`__eq__` methods through `eqDispatch`.  Layers:
+* `src_equals_impl`: the regenerated `_equals_impl` on ANY instance `x` (class, `__dict__`) and ANY `y` is `equalsSpec` —
+  isinstance test, then the `__dict__` entries in order, stopping at the first unequal one.  The loop body is obtained by
+  unification (`forIn_all_k`, the rule for a loop that returns on the first failing test); only one pass is examined.
+* `src_Tag_eq_def` / `src_TagList_eq_def` / `src_HTMLDependency_eq_def`: each `__eq__` is `_equals_impl(self, other)`.
+* `src_eq_node` (mutual structural induction `eq_node` / `eq_kids` over the left operand): for every pair of covered trees
+  (`eqCov`: no un-expanded tagifiable object — those compare by identity, which the fragment does not have) and any fuel
+  ≥ 4·nesting + 2, Python's `a == b` on the embedded objects (`embE`: every library object with its whole `__dict__`) is
+  `Node.eqv a b`; corollaries `src_Tag_eq`, `src_TagList_eq`, `src_HTMLDependency_eq`, `src_eq_not_instance`,
+  `src_Tag_vs_TagList`.
+* views: `src_Tag_repr` … `src_TagList_repr_html` (`= str(self)` for any `self`), `src_views_tag` / `src_views_list`.
+`Tag.__str__`, `TagList.__str__`, `_render_tag_or_taglist` are not translated (see harness/pytr_c08.py).
+
+Every theorem about a regenerated function takes `<fn>_available = true` and has its whole proof inside the second
+alternative of `first | exact absurd h (by decide) | (…)`, so that it is vacuous (and still compiles) when the function has
+left the translatable fragment.
 -/
 import HtmlVerif.Generated.Src
 import HtmlVerif.Lemmas.SrcC08
+import HtmlVerif.Model.ReadOps
 
 namespace HtmlVerif.SrcTie
 open HtmlVerif HtmlVerif.Py HtmlVerif.Generated.Src
@@ -138,12 +161,12 @@ theorem eq_leaf_step (av : EqAvail) (G : Globals) (f : Nat) (a b : Node) (ha : e
     | tobj1 => simp [eqCov] at hb
     | mnode n' =>
       rw [embE, embE, pyEqWith_flat_obj]
-      simp [pyEqFlat, eqKind, eqLibClass, eqHelperField, eqHelper, fieldGet?, eqScalar, natCast_beq, Node.eqv]
+      simp [pyEqFlat, eqKind, eqLibClass, eqHelperField, eqHelper, fieldGet?, eqScalar, eq_natCast_beq, Node.eqv]
     | _ => rfl
 theorem eq_taglist_step (av : EqAvail) (G : Globals) (k k' : Nodes) (f : Nat)
     (HK : pyEqListWith (eqD G f) (embEs k) (embEs k') = .ok (k.eqvKids k')) :
-    pyEqWith (eqD G (f + 2)) (tagListOf (embEs k)) (tagListOf (embEs k')) = .ok (k.eqvKids k') := by
-  unfold tagListOf
+    pyEqWith (eqD G (f + 2)) (eqTagList (embEs k)) (eqTagList (embEs k')) = .ok (k.eqvKids k') := by
+  unfold eqTagList
   rw [pyEqWith_lib _ _ _ _ rfl (by simp [eqKind, eqLibClass]), src_eq_dispatch av _ _ _ _ _ rfl]
   simp [equalsSpec, isInstanceTypeOf, isInstance, pyClassOf, pseudoField, allOk, fieldTest, pyGetAttrD, fieldGet?,
     pyEqWith_list_list, embEs_length, HK]
@@ -185,7 +208,7 @@ theorem eq_dep_step (av : EqAvail) (G : Globals) (d : DepInfo) (hh : Bool) (k : 
     have hcb : eqCovKids k' = true ∧ (hh' = true ∨ Nodes.isNil k' = true) := by simpa [eqCov] using hb
     have hca : eqCovKids k = true ∧ (hh = true ∨ Nodes.isNil k = true) := by simpa [eqCov] using ha
     have hk := eq_taglist_step av G k k' f (HK k' hcb.1)
-    have hhead : pyEqWith (eqD G (f + 2)) (if hh then tagListOf (embEs k) else .none) (if hh' then tagListOf (embEs k') else .none)
+    have hhead : pyEqWith (eqD G (f + 2)) (if hh then eqTagList (embEs k) else .none) (if hh' then eqTagList (embEs k') else .none)
         = .ok (hh == hh' && k.eqvKids k') := by
       cases hh <;> cases hh'
       · have h1 : k = .nil := by cases k <;> simp_all [Nodes.isNil]
@@ -195,7 +218,7 @@ theorem eq_dep_step (av : EqAvail) (G : Globals) (d : DepInfo) (hh : Bool) (k : 
       · exact (eq_builtin_lib av G f .none "TagList" _ rfl rfl).2
       · simpa using hk
     simp [equalsSpec, embE, isInstanceTypeOf, isInstance, pyClassOf, pseudoField, allOk, fieldTest, pyGetAttrD, fieldGet?,
-      pyEqWith_str_str, pyEqWith_bool_bool, pyEqWith_version, pyEqWith_source, pyEqWith_kvs, hhead]
+      pyEqWith_str_str, pyEqWith_bool_bool, pyEqWith_version, pyEqWith_source, pyEqWith_ekvs, hhead]
     rw [Node.eqv, depInfoEqv]
     cases (d.name == d'.name)
     · rfl
@@ -317,10 +340,10 @@ theorem src_HTMLDependency_eq (av : EqAvail) (G : Globals) (d : DepInfo) (hh : B
     position by position) -/
 theorem src_TagList_eq (av : EqAvail) (G : Globals) (k k' : Nodes) (fuel : Nat)
     (hk : eqCovKids k = true) (hk' : eqCovKids k' = true) (hf : eqFuelKids k + 4 ≤ fuel) :
-    TagList_eq G fuel (tagListOf (embEs k)) (tagListOf (embEs k')) = .ok (.bool (k.eqvKids k')) := by
+    TagList_eq G fuel (eqTagList (embEs k)) (eqTagList (embEs k')) = .ok (.bool (k.eqvKids k')) := by
   obtain ⟨f, rfl⟩ : ∃ f, fuel = f + 2 := ⟨fuel - 2, by omega⟩
   have h := eq_taglist_step av G k k' f (eq_kids av G k k' f hk hk' (by omega))
-  rw [tagListOf, pyEqWith_lib _ _ _ _ rfl (by simp [tagListOf, eqKind, eqLibClass])] at h
+  rw [eqTagList, pyEqWith_lib _ _ _ _ rfl (by simp [eqTagList, eqKind, eqLibClass])] at h
   exact asBool_bind_ok h
 
 /-- an instance of one of the three classes against anything that is not an instance of its class (a `Tag` against a
@@ -333,15 +356,66 @@ theorem src_eq_not_instance (av : EqAvail) (G : Globals) (fuel : Nat) (c : Strin
 /-- `tag == taglist` and `taglist == tag` are False whatever they contain -/
 theorem src_Tag_vs_TagList (av : EqAvail) (G : Globals) (fuel : Nat) (n : Str) (w : Bool) (at' : Attrs) (k : Nodes)
     (l : List PVal) :
-    Tag_eq G (fuel + 2) (embE (.tag n w at' k)) (tagListOf l) = .ok (.bool false)
-    ∧ TagList_eq G (fuel + 2) (tagListOf l) (embE (.tag n w at' k)) = .ok (.bool false) := by
+    Tag_eq G (fuel + 2) (embE (.tag n w at' k)) (eqTagList l) = .ok (.bool false)
+    ∧ TagList_eq G (fuel + 2) (eqTagList l) (embE (.tag n w at' k)) = .ok (.bool false) := by
   constructor
-  · have := src_eq_not_instance av G fuel "Tag" _ (tagListOf l) rfl
-      (by simp [embE, tagListOf, isInstanceTypeOf, isInstance, classBases, pyClassOf] :
-        isInstanceTypeOf (tagListOf l) (embE (.tag n w at' k)) = false)
+  · have := src_eq_not_instance av G fuel "Tag" _ (eqTagList l) rfl
+      (by simp [embE, eqTagList, isInstanceTypeOf, isInstance, classBases, pyClassOf] :
+        isInstanceTypeOf (eqTagList l) (embE (.tag n w at' k)) = false)
     simpa only [eqD, eqDispatch, pyClassOf, embE] using this
   · have := src_eq_not_instance av G fuel "TagList" [("data", .list l)] (embE (.tag n w at' k)) rfl
       (by simp [embE, isInstanceTypeOf, isInstance, classBases, pyClassOf])
-    simpa only [eqD, eqDispatch, pyClassOf, tagListOf] using this
+    simpa only [eqD, eqDispatch, pyClassOf, eqTagList] using this
+
+/-! ### the string views: `repr(x)` and `x._repr_html_()` are `str(x)` -/
+
+section Views
+open HtmlVerif.Ident
+
+/-- `Tag.__repr__` as the source has it is `str(self)`, whatever `self` is -/
+theorem src_Tag_repr (h : Tag_repr_available = true) (G : Globals) (x : PVal) : Tag_repr G x = pyStr x := by
+  first
+  | exact absurd h (by decide)
+  | (unfold Tag_repr
+     cases hx : pyStr x <;> simp [hx])
+
+/-- `Tag._repr_html_` as the source has it is `str(self)` -/
+theorem src_Tag_repr_html (h : Tag_repr_html_available = true) (G : Globals) (x : PVal) : Tag_repr_html G x = pyStr x := by
+  first
+  | exact absurd h (by decide)
+  | (unfold Tag_repr_html
+     cases hx : pyStr x <;> simp [hx])
+
+/-- `TagList.__repr__` as the source has it is `str(self)` -/
+theorem src_TagList_repr (h : TagList_repr_available = true) (G : Globals) (x : PVal) : TagList_repr G x = pyStr x := by
+  first
+  | exact absurd h (by decide)
+  | (unfold TagList_repr
+     cases hx : pyStr x <;> simp [hx])
+
+/-- `TagList._repr_html_` as the source has it is `str(self)` -/
+theorem src_TagList_repr_html (h : TagList_repr_html_available = true) (G : Globals) (x : PVal) :
+    TagList_repr_html G x = pyStr x := by
+  first
+  | exact absurd h (by decide)
+  | (unfold TagList_repr_html
+     cases hx : pyStr x <;> simp [hx])
+
+/-- the views of the model (Model/ReadOps.lean): for any object `x` standing for the tag `n` whose `str(x)` is the model's
+    `strView` (in whatever dependency render mode), `repr(x)` and `x._repr_html_()` as the source has them are the model's
+    `reprView` and `reprHtmlView` — errors included -/
+theorem src_views_tag (h1 : Tag_repr_available = true) (h2 : Tag_repr_html_available = true) (G : Globals) (x : PVal)
+    (cfg : Cfg) (m : RenderMode) (n : Node) (hs : pyStr x = embRes PVal.str (strView cfg m n)) :
+    Tag_repr G x = embRes PVal.str (reprView cfg m n) ∧ Tag_repr_html G x = embRes PVal.str (reprHtmlView cfg m n) :=
+  ⟨(src_Tag_repr h1 G x).trans hs, (src_Tag_repr_html h2 G x).trans hs⟩
+
+/-- the same for a child list -/
+theorem src_views_list (h1 : TagList_repr_available = true) (h2 : TagList_repr_html_available = true) (G : Globals) (x : PVal)
+    (cfg : Cfg) (m : RenderMode) (ks : Nodes) (hs : pyStr x = embRes PVal.str (strViewList cfg m ks)) :
+    TagList_repr G x = embRes PVal.str (reprViewList cfg m ks)
+    ∧ TagList_repr_html G x = embRes PVal.str (reprHtmlViewList cfg m ks) :=
+  ⟨(src_TagList_repr h1 G x).trans hs, (src_TagList_repr_html h2 G x).trans hs⟩
+
+end Views
 
 end HtmlVerif.SrcTie
